@@ -56,10 +56,10 @@ impl Topo {
         Some(t)
     }
     pub fn coq_ases(&self) -> String {
-        coq_list(self.ases.iter().map(|a| format!("({},{},{})", a.ia, coq_bool(a.core), coq_bytes(&a.key))))
+        coq_list(self.ases.iter().map(|a| format!("A {} {} {}", a.ia, coq_bool(a.core), u128::from_be_bytes(a.key))))
     }
     pub fn coq_links(&self) -> String {
-        coq_list(self.links.iter().map(|l| format!("({},{},{},{},{},{})", l.a, l.aif, l.ty, l.b, l.bif, coq_bool(l.up))))
+        coq_list(self.links.iter().map(|l| format!("L {} {} {} {} {} {}", l.a, l.aif, l.ty, l.b, l.bif, coq_bool(l.up))))
     }
     fn next_if(&self, rng: &mut Rng, a: u64) -> u16 {
         loop {
@@ -233,8 +233,8 @@ impl Pkt {
         format!("{} {} {} {} {} {}",
             self.dst, self.ci, self.ch,
             coq_list(self.lens.iter().map(|l| l.to_string())),
-            coq_list(self.infos.iter().map(|i| format!("({},{},{})", i.flags, i.segid, i.ts))),
-            coq_list(self.hops.iter().map(|h| format!("({},{},{},{},{})", h.flags, h.exp, h.cin, h.ceg, Self::mac_n(&h.mac)))))
+            coq_list(self.infos.iter().map(|i| format!("I {} {} {}", i.flags, i.segid, i.ts))),
+            coq_list(self.hops.iter().map(|h| format!("H {} {} {} {} {}", h.flags, h.exp, h.cin, h.ceg, Self::mac_n(&h.mac)))))
     }
     /// state a traversal leaves behind: pointers, SegIDs, hop flags
     pub fn coq_state(&self) -> String {
@@ -322,8 +322,8 @@ impl Case {
         format!("mkCase {} {} {} {} {} {} {} {} {} {} {}",
             self.topo.coq_ases(), self.topo.coq_links(), self.now, self.at, self.ifid,
             self.pkt.coq_fields(), self.kind,
-            coq_list(self.meta.iter().map(|(a, i)| format!("({a},{i})"))),
-            coq_list(self.out.trace.iter().map(|(a, i, c, x)| format!("({a},{i},{c},{x})"))),
+            coq_list(self.meta.iter().map(|(a, i)| format!("F {a} {i}"))),
+            coq_list(self.out.trace.iter().map(|(a, i, c, x)| format!("T {a} {i} {c} {x}"))),
             self.out.end, fin)
     }
     pub fn kind_name(&self) -> String {
@@ -364,6 +364,13 @@ impl World {
             }
         }
         Some(World { topo: topo.clone(), real, ts, paths })
+    }
+
+    /// topology only (no path listing)
+    pub fn build_light(topo: &Topo, rng: &mut Rng) -> Option<World> {
+        let real = topo.to_real()?;
+        let ts: u32 = 1_700_000_000 + rng.below(1_000_000) as u32;
+        Some(World { topo: topo.clone(), real, ts, paths: vec![] })
     }
 
     fn case(&self, topo: &Topo, real: &ScionTopology, now: u32, at: u64, ifid: u16, pkt: Pkt, kind: u8, what: String, meta: Vec<(u64, u16)>) -> Case {
@@ -524,4 +531,52 @@ fn recombine(rng: &mut Rng, a: &Pkt, b: &Pkt) -> Pkt {
         q.lens.push(h.len() as u8); q.infos.push(i); q.hops.extend(h);
     }
     q
+}
+
+// ------------------------------------------------------------------ segments (C01)
+pub struct SegEntry { pub ia: u64, pub key: [u8; 16], pub hop: (u8, u16, u16), pub mac: [u8; 6], pub peers: Vec<(u64, u16, (u8, u16, u16), [u8; 6])> }
+pub struct SegCase { pub tag: String, pub beta0: u16, pub ts: u32, pub entries: Vec<SegEntry> }
+impl SegCase {
+    pub fn coq(&self) -> String {
+        let m = |x: &[u8; 6]| x.iter().fold(0u64, |a, &b| a * 256 + b as u64);
+        format!("mkSCase {} {} {}", self.beta0, self.ts,
+            coq_list(self.entries.iter().map(|e| format!("E {} {} {} {} {} {} {}", e.ia, u128::from_be_bytes(e.key), e.hop.0, e.hop.1, e.hop.2, m(&e.mac),
+                coq_list(e.peers.iter().map(|p| format!("P {} {} {} {} {} {}", p.0, p.1, p.2.0, p.2.1, p.2.2, m(&p.3))))))))
+    }
+    pub fn human(&self) -> String {
+        format!("topo={} beta0={} ts={} entries={:?}", self.tag, self.beta0, self.ts,
+            self.entries.iter().map(|e| format!("{:x}:{}>{} peers={}", e.ia, e.hop.1, e.hop.2, e.peers.len())).collect::<Vec<_>>())
+    }
+}
+impl World {
+    /// the control plane's segments for a few AS pairs, with random SegID and expiry
+    pub fn segments(&self, rng: &mut Rng, max: usize) -> Vec<SegCase> {
+        let reg = SegmentRegistry::from_topology(&self.real);
+        let mut out = vec![];
+        let mut seen = std::collections::HashSet::new();
+        let mut pairs: Vec<(u64, u64)> = vec![];
+        for s in &self.topo.ases { for d in &self.topo.ases { if s.ia != d.ia { pairs.push((s.ia, d.ia)); } } }
+        rng.shuffle(&mut pairs);
+        for (s, d) in pairs {
+            if out.len() >= max { break; }
+            let Ok(ls) = reg.endhost_list_segments(IsdAsn(s), IsdAsn(s), IsdAsn(d)) else { continue };
+            let segid = rng.below(65536) as u16;
+            let exp = *rng.pick(&[0u8, 1, 63, 200, 255]);
+            let when = chrono::DateTime::<chrono::Utc>::from_timestamp(self.ts as i64, 0).unwrap();
+            let Ok(ps) = ls.into_path_segments(&self.real, when, segid, exp) else { continue };
+            for seg in ps.iter_all() {
+                let mut entries = vec![];
+                for e in seg.as_entries.iter() {
+                    let e = e.entry();
+                    let key = self.topo.ases.iter().find(|a| a.ia == e.local.0).map(|a| a.key).unwrap_or([0; 16]);
+                    let hf = &e.hop_entry.hop_field;
+                    entries.push(SegEntry { ia: e.local.0, key, hop: (hf.expiration_units, hf.cons_ingress, hf.cons_egress), mac: hf.mac.0,
+                        peers: e.peer_entries.iter().map(|p| (p.peer.0, p.peer_interface, (p.hop_field.expiration_units, p.hop_field.cons_ingress, p.hop_field.cons_egress), p.hop_field.mac.0)).collect() });
+                }
+                let c = SegCase { tag: self.topo.tag.clone(), beta0: seg.info().segment_id, ts: seg.info().timestamp, entries };
+                if seen.insert(c.coq()) && out.len() < max { out.push(c); }
+            }
+        }
+        out
+    }
 }
